@@ -46,35 +46,57 @@ def relabel(rng, n, kind):
     return labs
 
 
+PASSED = []  # (object handed to the builder, float it stood for): must still agree afterwards
+
+
+def typed(rng, v):
+    """The number v as one of the objects users hold coefficients in: float, int, numpy
+    scalar, or a 0-d numpy array (a MUTABLE object; the same object is handed out every time
+    the coefficient is looked up)."""
+    r = rng.random()
+    if r < 0.6:
+        o = float(v)
+    elif r < 0.7 and float(v).is_integer():
+        o = int(v)
+    elif r < 0.85:
+        o = np.float64(v)
+    else:
+        o = np.array(float(v))
+    PASSED.append((o, float(v)))
+    return o
+
+
 def coeff_edge(rng, edges, given_edges, form, values=(1.0, 0.5, -2.0, 1.5, 0.25)):
     """-> (argument to pass, dict frozenset(edge)->value)"""
     if form == "scalar":
         v = rng.choice(values)
-        return v, {frozenset(e): v for e in edges}
+        return typed(rng, v), {frozenset(e): v for e in edges}
     truth = {frozenset(e): rng.choice(values) for e in edges}
+    objs = {k: typed(rng, v) for k, v in truth.items()}
     if form == "dict":
         d = {}
         for e in given_edges:
             a, b = e
             if rng.random() < 0.5:
-                d[(b, a)] = truth[frozenset(e)]  # reversed orientation relative to the edge list
+                d[(b, a)] = objs[frozenset(e)]  # reversed orientation relative to the edge list
             else:
-                d[(a, b)] = truth[frozenset(e)]
+                d[(a, b)] = objs[frozenset(e)]
         return d, truth
-    return (lambda a, b: truth[frozenset((a, b))]), truth
+    return (lambda a, b: objs[frozenset((a, b))]), truth
 
 
 def coeff_node(rng, sites, form, values=(0.0, 8.0, 1.0, 3.0, 0.5)):
     if form == "scalar":
         v = rng.choice(values)
-        return v, {s: v for s in sites}
+        return typed(rng, v), {s: v for s in sites}
     truth = {s: rng.choice(values) for s in sites}
     if rng.random() < 0.25:
         # impurity pattern: most sites carry exactly zero
         truth = {s: (v if rng.random() < 0.3 else 0.0) for s, v in truth.items()}
+    objs = {s: typed(rng, v) for s, v in truth.items()}
     if form == "dict":
-        return dict(truth), truth
-    return (lambda s: truth[s]), truth
+        return dict(objs), truth
+    return (lambda s: objs[s]), truth
 
 
 SPINFUL_MAP = {"Z2": [0, 1, 1, 0], "U1": [0, 1, 1, 2], "Z2Z2": [(0, 0), (0, 1), (1, 0), (1, 1)], "U1U1": [(0, 0), (0, 1), (1, 0), (1, 1)]}
@@ -94,6 +116,7 @@ def element_reader(G, maps):
 
 def lattice_case(ctx, rng, n, edges0, exhaustive_tag=None):
     sr = ctx.sr
+    PASSED.clear()
     kind = rng.choice(["int", "tuple", "str"])
     labs = relabel(rng, n, kind)
     edges = [(labs[a], labs[b]) for a, b in edges0]
@@ -155,6 +178,13 @@ def lattice_case(ctx, rng, n, edges0, exhaustive_tag=None):
         V_(f"builder-raises-{o.excname}", repr(o.exc))
         return
     H = o.value
+    # (0) the coefficient objects handed in still hold what they held
+    for obj, val in PASSED:
+        if float(obj) != val:
+            V_("coefficient-object-modified", f"a coefficient passed as {type(obj).__name__} held {val} before the call and {float(obj)} after it")
+            return
+    if any(isinstance(obj, np.ndarray) for obj, _ in PASSED):
+        ctx.count("coeff", "0-d-array-objects")
     # (a) one term per given edge, keyed as given
     if list(H.keys()) != list(given) and set(H.keys()) != set(given) or len(H) != len(given):
         V_("terms-keys", f"returned keys {list(H.keys())} != edges as given {given}")
